@@ -130,8 +130,9 @@ pub struct ExecOpts {
     pub trace: bool,
     pub hash: bool,
     pub solo: Option<usize>,
-    /// choice-point index at which one compare_exchange_weak fails spuriously
-    pub spurious_at: Option<u64>,
+    /// every compare_exchange_weak that would succeed is a binary choice
+    /// point: option 1 (one deviation) makes it fail spuriously
+    pub spurious: bool,
 }
 
 pub struct ExecRecord {
@@ -172,7 +173,7 @@ struct Inner {
     switches: u32,
     abort_queue: Vec<usize>,
     cas_weak_seen: u64,
-    spurious_at: Option<u64>,
+    spurious: bool,
     // memory bookkeeping (whole execution incl. sequential phases)
     freed: BTreeMap<usize, usize>,
     live: HashMap<usize, usize>,
@@ -250,7 +251,7 @@ pub fn sched() -> &'static Sched {
             switches: 0,
             abort_queue: Vec::new(),
             cas_weak_seen: 0,
-            spurious_at: None,
+            spurious: false,
             freed: BTreeMap::new(),
             live: HashMap::new(),
             faults: Vec::new(),
@@ -677,22 +678,43 @@ impl Runtime for Sched {
         if me >= MAXT || is_unwinding() {
             return false;
         }
+        // the choice list may grow here: not memory of the code under test
+        let _u = Untrack::new();
         let mut g = self.lock();
         if g.mode != Mode::Running {
             return false;
         }
-        if let Some(k) = g.spurious_at {
-            if g.cas_weak_seen == k + 1 {
-                g.spurious_at = None;
-                if g.tracing {
-                    if let Some(l) = g.trace.last_mut() {
-                        l.push_str(" [spurious failure injected]");
-                    }
-                }
-                return true;
+        if !g.spurious || g.frozen || g.solo_running {
+            return false;
+        }
+        let idx = g.choices.len();
+        let c = if idx < g.prefix.len() {
+            let c = g.prefix[idx] as usize;
+            let en = g.expect_n[idx] as usize;
+            if c >= 2 || (en != 0 && en != 2) {
+                g.status.get_or_insert(Status::Diverged(format!(
+                    "choice point {}: replay wants option {} of {}, found a weak CAS (2 options)",
+                    idx, c, en
+                )));
+                self.begin_abort(me, g, PointKind::Normal);
+                return false;
+            }
+            c
+        } else {
+            0
+        };
+        g.choices.push(ChoicePoint {
+            n: 2,
+            chosen: c as u8,
+            cost_mask: 0b10,
+            at_yield: false,
+        });
+        if c == 1 && g.tracing {
+            if let Some(l) = g.trace.last_mut() {
+                l.push_str(" [spurious failure injected]");
             }
         }
-        false
+        c == 1
     }
 
     fn mutex_lock(&self, addr: usize) {
@@ -1401,7 +1423,7 @@ pub fn run_threads(bodies: Vec<Body>, opts: &ExecOpts) -> ExecRecord {
         g.switches = 0;
         g.abort_queue.clear();
         g.cas_weak_seen = 0;
-        g.spurious_at = opts.spurious_at;
+        g.spurious = opts.spurious;
     }
     // persistent worker threads: worker i is always managed thread i
     let pool = pool();
